@@ -717,6 +717,9 @@ func onceGuarded(c *Ctx, fn *ssa.Function, closeIn ssa.Instruction, li *lockInfo
 			}
 		})
 		if onlyOnce {
+			if why, ok := onceLifetimeMatchesChannel(c, fn, closeIn); !ok {
+				return why, false
+			}
 			return "inside sync.Once.Do", true
 		}
 	}
@@ -1016,4 +1019,80 @@ func checkPopGuard(c *Ctx, pkg, label string, li *lockInfo) {
 			}
 		}
 	}
+}
+
+// onceLifetimeMatchesChannel: the close in closure fn runs under once.Do. If the channel field is
+// re-created outside its owner's constructor (a new channel per run), the Once must be re-created at
+// the same place; otherwise the second channel can never be closed (the stop request of the second
+// run is lost and StopPlot waits for the plot to finish while holding the keeper's lock).
+func onceLifetimeMatchesChannel(c *Ctx, fn *ssa.Function, closeIn ssa.Instruction) (string, bool) {
+	parent := fn.Parent()
+	var chT, chF, onT, onF string
+	onceIsValue := false
+	ci := closeIn.(ssa.CallInstruction)
+	for x := range backSlice(ci.Common().Args[0]).vals {
+		if t, f, _, ok := fieldOfValue(x); ok {
+			if _, isCh := x.Type().Underlying().(*types.Chan); isCh {
+				chT, chF = t, f
+			}
+		}
+	}
+	allInstrs(parent, func(in ssa.Instruction) {
+		if calleeID(in) != "(*sync.Once).Do" {
+			return
+		}
+		recv := in.(ssa.CallInstruction).Common().Args[0]
+		if fa, ok := recv.(*ssa.FieldAddr); ok {
+			if t, f, _, ok2 := fieldOfAddr(fa); ok2 {
+				onT, onF, onceIsValue = t, f, true
+			}
+			return
+		}
+		for x := range backSlice(recv).vals {
+			if t, f, _, ok := fieldOfValue(x); ok && strings.HasSuffix(x.Type().String(), "sync.Once") {
+				onT, onF = t, f
+			}
+		}
+	})
+	if chF == "" || onF == "" || chT != onT {
+		return "", true // not a field-held pair: nothing to relate
+	}
+	// re-creations of the channel outside constructors
+	for g := range c.AllFuncs {
+		if !inRepo(g) {
+			continue
+		}
+		for _, a := range fieldAccesses(g) {
+			if a.Kind != "store" || a.Type != chT || a.Field != chF || isFreshObject(a.Base) {
+				continue
+			}
+			if _, isMk := strip(a.In.(*ssa.Store).Val).(*ssa.MakeChan); !isMk {
+				continue
+			}
+			if onceIsValue {
+				return fmt.Sprintf("%s.%s is re-created in %s but the Once guarding its close (%s) is a value that lives as long as the object: after the first stop the next run's channel can never be closed", shortType(chT), chF, g.Name(), onF), false
+			}
+			paired := false
+			for _, b := range fieldAccesses(g) {
+				if b.Kind == "store" && b.Type == onT && b.Field == onF {
+					if al, isAl := strip(b.In.(*ssa.Store).Val).(*ssa.Alloc); isAl && al.Heap {
+						r := reach(g, a.In, nil, func(in ssa.Instruction) bool { return in == b.In })
+						skip := false
+						for _, ret := range returnsOf(g) {
+							if r(ret) {
+								skip = true
+							}
+						}
+						if instrDominates(b.In, a.In) || !skip {
+							paired = true
+						}
+					}
+				}
+			}
+			if !paired {
+				return fmt.Sprintf("%s.%s is re-created in %s without a fresh Once for %s: the new channel inherits a Once that may already have fired", shortType(chT), chF, g.Name(), onF), false
+			}
+		}
+	}
+	return "", true
 }
